@@ -154,8 +154,10 @@ fn process_modify_event(
         }
         ModifyKind::Name(rename_mode) => {
             match rename_mode {
-                // This event could be fired once on delete or twice on rename
-                RenameMode::Any => {
+                // This event could be fired once on delete or twice on rename.
+                // inotify reports a move out of (resp. into) the watched folders as a
+                // lone From (resp. To) event: the other half happens somewhere we do not watch.
+                RenameMode::Any | RenameMode::From | RenameMode::To => {
                     if paths.len() != 1 {
                         panic!(
                             "File rename event should contain exactly one file. \
